@@ -174,9 +174,9 @@ fn hj(e: Entity) -> Value {
     json!([e.id(), e.gen().id()])
 }
 
-fn new_world<M: MarkerJs>() -> World
+fn new_world<M: MarkerJs>(proto: &M::Allocator) -> World
 where
-    M::Allocator: Default,
+    M::Allocator: Clone,
     <M as Component>::Storage: Default,
 {
     let mut w = World::new();
@@ -184,8 +184,31 @@ where
     w.register::<SB>();
     w.register::<SRefs>();
     w.register::<M>();
-    w.insert(M::Allocator::default());
+    // every world of a script gets a copy of one freshly made allocator (as src/saveload/tests.rs does)
+    w.insert(proto.clone());
     w
+}
+
+/// the value of a marker as a hash-map key sees it (fixed hasher keys): a function of the id alone
+fn mhash<M: MarkerJs>(m: &M) -> u64 {
+    use std::hash::Hasher;
+    #[allow(deprecated)]
+    let mut h = std::hash::SipHasher::new_with_keys(1, 2);
+    m.hash(&mut h);
+    h.finish()
+}
+
+/// (determinism runs) the hash of every live marker, of the copy in the storage and of a copy on the stack
+fn mhashes<M: MarkerJs>(w: &World) -> Value {
+    let ms = w.read_storage::<M>();
+    let v: Vec<Value> = (&ms)
+        .join()
+        .map(|m| {
+            let c = m.clone();
+            json!([m.idjs(), mhash(m).to_string(), mhash(&c).to_string()])
+        })
+        .collect();
+    json!(v)
 }
 
 fn obs<M: MarkerJs>(w: &World) -> Value {
@@ -306,11 +329,29 @@ fn opt1(v: &Value) -> Value {
 fn run<M: MarkerJs + Serialize>(script: &Value) -> Vec<String>
 where
     for<'de> M: Deserialize<'de>,
-    M::Allocator: Default,
+    M::Allocator: Default + Clone,
     <M as Component>::Storage: Default,
 {
     let nworlds = script["worlds"].as_u64().unwrap_or(2) as usize;
-    let mut worlds: Vec<World> = (0..nworlds).map(|_| new_world::<M>()).collect();
+    let proto = M::Allocator::default();
+    let mut worlds: Vec<World> = (0..nworlds).map(|_| new_world::<M>(&proto)).collect();
+    // what happens in another world must not matter: in the further processes of the determinism check
+    // (VERIF_PROC > 0) one more world, holding one more copy of the allocator, marks a few entities first;
+    // nothing of it is recorded
+    let det_proc = std::env::var("VERIF_PROC").ok().and_then(|x| x.parse::<usize>().ok());
+    let shadow_n = det_proc.unwrap_or(0);
+    let _shadow = if shadow_n > 0 {
+        let mut sw = new_world::<M>(&proto);
+        for _ in 0..(2 * shadow_n + 1) {
+            let e = sw.create_entity().build();
+            let mut ms = sw.write_storage::<M>();
+            let mut al = sw.write_resource::<M::Allocator>();
+            let _ = al.mark(e, &mut ms);
+        }
+        Some(sw)
+    } else {
+        None
+    };
     let mut handles: Vec<Vec<Entity>> = vec![vec![]; nworlds];
     let mut blobs: Vec<(String, String)> = vec![];
     let mut out = vec![json!({"op":"Reset","tid":script["tid"],"worlds":nworlds}).to_string()];
@@ -498,6 +539,19 @@ where
                     let r = al.retrieve_entity_internal(id.id());
                     ev = json!({"op":"Resolve","w":wi+1,"m":id.idjs(),"res":r.map(hj).unwrap_or(json!([])),"panic":""});
                 }
+                "retrieve" => {
+                    // the creation path of deserialisation, called directly: the entity carrying the
+                    // marker, or a new one
+                    let m = M::from_js(&op["m"]);
+                    let e = {
+                        let ents = w.entities();
+                        let mut ms = w.write_storage::<M>();
+                        let mut al = w.write_resource::<M::Allocator>();
+                        al.retrieve_entity(m.clone(), &mut ms, &ents)
+                    };
+                    handles[wi].push(e);
+                    ev = json!({"op":"Retrieve","w":wi+1,"m":m.idjs(),"res":hj(e),"panic":""});
+                }
                 "amaintain" => {
                     {
                         let ents = w.entities();
@@ -584,6 +638,9 @@ where
         match ob {
             Ok(o) => {
                 ev["obs"] = o;
+                if det_proc.is_some() {
+                    ev["mh"] = catch(|| mhashes::<M>(&worlds[wi])).unwrap_or(json!("panic"));
+                }
                 out.push(ev.to_string());
             }
             Err(_) => break,
